@@ -405,6 +405,7 @@ class Written:
         self.enc_id: Optional[int] = None
         self.xref_id: Optional[int] = None
         self.xref_rows = b""
+        self.xref_trailer = True          # the xref stream dictionary doubles as the trailer (ID, Encrypt)
 
 
 class EStream:
@@ -414,31 +415,50 @@ class EStream:
         self.d, self.raw, self.flate = d, raw, flate
 
 
+def _runs(ids: List[int]) -> List[Tuple[int, int]]:
+    """Maximal runs (start, count) of consecutive ids."""
+    out: List[Tuple[int, int]] = []
+    for n in sorted(ids):
+        if out and out[-1][0] + out[-1][1] == n:
+            out[-1] = (out[-1][0], out[-1][1] + 1)
+        else:
+            out.append((n, 1))
+    return out
+
+
 def write_document(objs: Dict[int, Tuple[int, Any]], root: int, cfg: Optional[Cfg], rng,
                    layout: str = "table", encrypt_indirect: bool = False, info: Optional[int] = None,
-                   objstm_members: Optional[List[int]] = None, eol: bytes = b"\n") -> Written:
+                   objstm_members: Optional[List[int]] = None, eol: bytes = b"\n",
+                   old_versions: Optional[Dict[int, Tuple[int, Any]]] = None) -> Written:
     """objs: objid -> (genno, value); value is a Python tree (bytes = PDF string, str = name,
-    PStream = stream).  layout "table": classic xref table (with subsections) + trailer;
-    "xrefstm": cross-reference stream, and the objects listed in objstm_members (generation 0, not
-    streams) live inside one object stream.  cfg None writes the unencrypted original."""
+    PStream = stream).  cfg None writes the unencrypted original.
+    layout "table":   classic xref table (with subsections) + trailer;
+           "xrefstm": cross-reference stream (with /Index ranges); the objects listed in objstm_members
+                      (generation 0, not streams) live inside one (encrypted) object stream;
+           "hybrid":  classic table for the ordinary objects + /XRefStm in the trailer pointing at a
+                      cross-reference stream that lists the object-stream members.
+    old_versions: objid -> (genno, value) written in a FIRST revision; the values of `objs` for these ids
+    are then written in an appended second revision (/Prev), same Encrypt dictionary and ID."""
     res = Written()
     out = io.BytesIO()
     out.write(b"%PDF-1.7" + eol + b"%\xe2\xe3\xcf\xd3" + eol)
     offs: Dict[int, Tuple[int, int]] = {}
-    members = list(objstm_members or []) if layout == "xrefstm" else []
+    old_versions = dict(old_versions or {})
+    members = list(objstm_members or []) if layout in ("xrefstm", "hybrid") else []
     all_ids = sorted(objs)
     next_id = max(all_ids) + 1
-    enc_id = None
-    objstm_id = None
-    if cfg is not None and encrypt_indirect:
-        enc_id = next_id
+
+    def fresh() -> int:
+        nonlocal next_id
         next_id += 1
-    if members:
-        objstm_id = next_id
-        next_id += 1
-    xref_id = next_id if layout == "xrefstm" else None
-    res.enc_id, res.objstm_id, res.xref_id = enc_id, objstm_id, xref_id
+        return next_id - 1
+
+    enc_id = fresh() if (cfg is not None and encrypt_indirect) else None
+    objstm_id = fresh() if members else None
+    xref_id = fresh() if layout in ("xrefstm", "hybrid") else None
+    res.enc_id, res.objstm_id = enc_id, objstm_id
     hexmode = rng.randrange(3)
+    two = b"\r\n" if eol == b"\r\n" else b" " + eol[:1]
 
     def emit(n: int, g: int, v: Any) -> None:
         offs[n] = (out.tell(), g)
@@ -461,8 +481,52 @@ def write_document(objs: Dict[int, Tuple[int, Any]], root: int, cfg: Optional[Cf
             res.stored[n] = (g, "direct", ev)
             out.write(W.ser_indirect(n, _hexify(ev, hexmode), g, eol))
 
+    def trailer_dict(size: int) -> Dict[str, Any]:
+        t: Dict[str, Any] = {"Root": W.Ref(root, objs[root][0]), "Size": size}
+        if info is not None:
+            t["Info"] = W.Ref(info, objs[info][0])
+        if cfg is not None:
+            t["Encrypt"] = W.Ref(enc_id) if enc_id is not None else encrypt_dict(cfg)
+            if cfg.have_id:
+                t["ID"] = [W.HexStr(cfg.id0), W.HexStr(cfg.id0[::-1])]
+        return t
+
+    def write_table(ids: List[int], t: Dict[str, Any]) -> int:
+        xpos = out.tell()
+        out.write(b"xref" + eol + b"0 1" + eol + b"0000000000 65535 f" + two)
+        for start, cnt in _runs(ids):
+            out.write(b"%d %d" % (start, cnt) + eol)
+            for n in range(start, start + cnt):
+                out.write(b"%010d %05d n" % offs[n] + two)
+        out.write(b"trailer" + eol + W.ser(t) + eol)
+        return xpos
+
+    def write_xref_stream(xid: int, ids: List[int], member_index: Dict[int, int], t: Dict[str, Any]) -> int:
+        xpos = out.tell()
+        offs[xid] = (xpos, 0)
+        ids = sorted(set(ids) | {xid} | ({0} if 0 not in ids else set()))
+        rows = bytearray()
+        for n in ids:
+            if n in member_index:
+                rows += struct.pack(">BIH", 2, objstm_id, member_index[n])
+            elif n == 0:
+                rows += struct.pack(">BIH", 0, 0, 65535)
+            else:
+                rows += struct.pack(">BIH", 1, offs[n][0], offs[n][1])
+        d = dict(t)
+        d.update({"Type": "XRef", "W": [1, 4, 2]})
+        runs = _runs(ids)
+        if runs != [(0, d["Size"])]:
+            d["Index"] = [x for r in runs for x in r]
+        res.xref_rows = bytes(rows)
+        res.xref_id = xid
+        res.stored[xid] = (0, "direct", EStream(dict(d), bytes(rows)))
+        out.write(W.ser_indirect(xid, W.Stream(d, bytes(rows)), 0, eol))      # never encrypted
+        return xpos
+
+    # ---- first (or only) revision
     for n in all_ids:
-        g, v = objs[n]
+        g, v = old_versions.get(n, objs[n])
         if n in members:
             assert g == 0 and not isinstance(v, PStream)
             continue
@@ -476,52 +540,40 @@ def write_document(objs: Dict[int, Tuple[int, Any]], root: int, cfg: Optional[Cf
         for i, n in enumerate(members):
             member_index[n] = i
             head.append(b"%d %d" % (n, len(body)))
-            body += W.ser(_hexify(objs[n][1], hexmode)) + b"\n"           # members: plaintext inside
-            res.stored[n] = (0, "objstm", objs[n][1])
+            v = old_versions.get(n, objs[n])[1]
+            body += W.ser(_hexify(v, hexmode)) + b"\n"                   # members: plaintext inside
+            res.stored[n] = (0, "objstm", v)
         first = b" ".join(head) + b"\n"
         emit(objstm_id, 0, PStream({"Type": "ObjStm", "N": len(members), "First": len(first)}, first + body,
                                    flate=bool(rng.randrange(2))))
-    trailer: Dict[str, Any] = {"Root": W.Ref(root, objs[root][0])}
-    if info is not None:
-        trailer["Info"] = W.Ref(info, objs[info][0])
-    if cfg is not None:
-        trailer["Encrypt"] = W.Ref(enc_id) if enc_id is not None else encrypt_dict(cfg)
-        if cfg.have_id:
-            trailer["ID"] = [W.HexStr(cfg.id0), W.HexStr(cfg.id0[::-1])]
     if layout == "table":
-        size = next_id
-        xpos = out.tell()
-        two = b"\r\n" if eol == b"\r\n" else b" " + eol[:1]
-        out.write(b"xref" + eol + b"0 1" + eol + b"0000000000 65535 f" + two)
-        ids = sorted(offs)
-        i = 0
-        while i < len(ids):
-            j = i
-            while j + 1 < len(ids) and ids[j + 1] == ids[j] + 1:
-                j += 1
-            out.write(b"%d %d" % (ids[i], j - i + 1) + eol)
-            for n in ids[i:j + 1]:
-                out.write(b"%010d %05d n" % offs[n] + two)
-            i = j + 1
-        trailer["Size"] = size
-        out.write(b"trailer" + eol + W.ser(trailer) + eol)
+        xpos = write_table(sorted(offs), trailer_dict(next_id))
+    elif layout == "xrefstm":
+        xpos = write_xref_stream(xref_id, sorted(offs) + members, member_index, trailer_dict(next_id))
     else:
-        size = xref_id + 1
-        xpos = out.tell()
-        offs[xref_id] = (xpos, 0)
-        rows = bytearray()
-        for n in range(size):
-            if n in member_index:
-                rows += struct.pack(">BIH", 2, objstm_id, member_index[n])
-            elif n in offs:
-                rows += struct.pack(">BIH", 1, offs[n][0], offs[n][1])
-            else:
-                rows += struct.pack(">BIH", 0, 0, 65535 if n == 0 else 0)
-        res.xref_rows = bytes(rows)
-        d = dict(trailer)
-        d.update({"Type": "XRef", "Size": size, "W": [1, 4, 2]})
-        res.stored[xref_id] = (0, "direct", EStream(dict(d), bytes(rows)))
-        out.write(W.ser_indirect(xref_id, W.Stream(d, bytes(rows)), 0, eol))   # never encrypted
+        # hybrid: the stream lists the members only and carries no trailer keys of its own
+        spos = write_xref_stream(xref_id, members, member_index, {"Size": next_id})
+        res.xref_trailer = False
+        t = trailer_dict(next_id)
+        t["XRefStm"] = spos
+        xpos = write_table(sorted(offs), t)
     out.write(b"startxref" + eol + b"%d" % xpos + eol + b"%%EOF" + eol)
+
+    # ---- appended second revision
+    if old_versions:
+        upd = sorted(old_versions)
+        for n in upd:
+            g, v = objs[n]
+            emit(n, g, v)                                                   # always as a direct object
+        if layout == "xrefstm":
+            xid2 = fresh()
+            t = trailer_dict(next_id)
+            t["Prev"] = xpos
+            xpos2 = write_xref_stream(xid2, upd, {}, t)
+        else:
+            t = trailer_dict(next_id)
+            t["Prev"] = xpos
+            xpos2 = write_table(upd, t)
+        out.write(b"startxref" + eol + b"%d" % xpos2 + eol + b"%%EOF" + eol)
     res.data = out.getvalue()
     return res
